@@ -19,3 +19,9 @@ PROPS['C14'] = dict(
        'that derived fields are written only in V or on fresh objects and dirty is cleared only after recomputation; that every no-store return of an exported setter compares each stored parameter with its field (or is a rejection/refusal); '
        'that the fast-path cache key is complete; that alpha_count moves with the alpha-map reference. These decide "no setter leaves stale derived state behind" structurally for every path, not for sampled histories.',
   note='Trusted: clang-14 IR = built program. Not decided: that compute_image_info derives the right flags from the inputs; histories as such.')
+PROPS['C20'] = dict(
+  technique='static analysis: computed owned-field set, finaliser coverage (T-COV), release-before-overwrite path query (T-OWN), who-may-write ref_count (T-WHO), guard atoms of the alpha-map exchange (T-GRD)',
+  text='Computes which image fields ever receive an allocation, a counted reference or an initialised region (owned fields) and decides that the finaliser releases each exactly once, only under ref_count == 0 and outside loops, with the matching release function; '
+       'that destroy_func is called once and only there; that unref frees iff the finaliser says so; that every overwrite of an owned field releases or null-tests the old value on all paths; that ref_count is written only by init/ref/fini; '
+       'that the alpha-map exchange is guarded by both chain refusals and by owner != referent and pairs ref/unref with alpha_count. Decided for every path of every function, which no finite history sample can do.',
+  note='Trusted: clang-14 IR = built program. Not decided: histories as such; user misuse (unref more often than ref).')
